@@ -147,6 +147,10 @@ def _topo_terms(m):
     return cnats(gs), clist([clist([cnats(r) for r in tab]) for tab in cn]), dim3
 
 
+FIXED_TABLES = [('tri-struct', 'V:ElementTriP4'), ('tri-struct', 'V:DG:ElementTriP2'), ('quad-jiggled', 'V:ElementQuadP(3)'),
+                ('tet-struct', 'V:DG:ElementTetP1')]
+
+
 def correspond_tables(ctx, cases):
     """Dofs.element_dofs, split_indices and _deduce_bfun of the real classes vs the regenerated models"""
     import skfem
@@ -155,11 +159,15 @@ def correspond_tables(ctx, cases):
     from ..c19_oracle import VEC_ELEMS
     rng = ctx.rng
     meshes = ['tri-delaunay', 'quad-jiggled', 'tet-struct', 'hex-jiggled', 'line-random', 'tri-struct', 'tet-delaunay']
-    for c in range(ctx.n(6, 60)):
+    for c in range(ctx.n(8, 60)):
         mname = meshes[c % len(meshes)]
         fam = O1.FAMILY[mname]
         m = O1.make_mesh(mname, rng.randrange(10 ** 6))
         spec = rng.choice(VEC_ELEMS[fam])
+        if c < len(FIXED_TABLES):                   # >= 2 interior DOFs per cell in the scalar element, every tier
+            mname, spec = FIXED_TABLES[c]
+            fam = O1.FAMILY[mname]
+            m = O1.make_mesh(mname, 4242 + c)
         info = {'mesh': mname, 'elem': spec, 'nelements': int(m.nelements)}
         elem = _run(ctx, 'tables:element', 'element construction', info, lambda: O1.make_elem(spec))
         if elem is None:
